@@ -143,6 +143,15 @@ func (w *World) resolveType(p *packages.Package, pos token.Pos, text string) (ty
 	}
 	tv, err := types.Eval(w.Fset, p.Types, pos, text)
 	if err != nil {
+		// fall back to the file scopes of the package's other files (their imports)
+		for _, f := range p.Syntax {
+			if tv2, err2 := types.Eval(w.Fset, p.Types, f.Name.End(), text); err2 == nil {
+				tv, err = tv2, nil
+				break
+			}
+		}
+	}
+	if err != nil {
 		return nil, fmt.Errorf("cannot resolve type %q: %v", text, err)
 	}
 	if !tv.IsType() {
